@@ -12,28 +12,28 @@ import (
 )
 
 const (
-	bPass = iota
-	bError
-	bSkip
-	bHijackReq
-	bHijackRes
-	bHijackReqErr // hijacks and returns an error from the same call
-	bHijackResErr
+	zzbPass = iota
+	zzbError
+	zzbSkip
+	zzbHijackReq
+	zzbHijackRes
+	zzbHijackReqErr // hijacks and returns an error from the same call
+	zzbHijackResErr
 )
 
 // norm maps the hijack-and-fail behaviours to the plain hijack ones: what must hold after a
 // hijack does not depend on what the hijacking modifier returned.
-func norm(b int) int {
+func zznorm(b int) int {
 	switch b {
-	case bHijackReqErr:
-		return bHijackReq
-	case bHijackResErr:
-		return bHijackRes
+	case zzbHijackReqErr:
+		return zzbHijackReq
+	case zzbHijackResErr:
+		return zzbHijackRes
 	}
 	return b
 }
 
-type exchangeRec struct {
+type zzexchangeRec struct {
 	req         *http.Request
 	reqCalls    int
 	resCalls    int
@@ -46,28 +46,28 @@ type exchangeRec struct {
 }
 
 // recorder is the request+response modifier under test conditions.
-type recorder struct {
+type zzrecorder struct {
 	behave     []int
-	recs       []*exchangeRec
-	o          *origin
-	conn       *clientConn
+	recs       []*zzexchangeRec
+	o          *zzorigin
+	conn       *zzclientConn
 	hijackedAt int // conn reads+writes+deadlines at the moment of hijack (-1: none)
 	dials      *int
 	errKind    int
 }
 
-var errMod = errors.New("modifier failed")
+var zzerrMod = errors.New("modifier failed")
 
 // timeoutErr is a net.Error that reports a timeout, as a modifier doing network I/O may return.
-type timeoutErr struct{}
+type zztimeoutErr struct{}
 
-func (timeoutErr) Error() string   { return "modifier timed out" }
-func (timeoutErr) Timeout() bool   { return true }
-func (timeoutErr) Temporary() bool { return true }
+func (zztimeoutErr) Error() string   { return "modifier timed out" }
+func (zztimeoutErr) Timeout() bool   { return true }
+func (zztimeoutErr) Temporary() bool { return true }
 
 // modErr is the error a failing modifier returns: which kind is chosen once per run, the first
 // time it is needed. Whatever a modifier's error is, it must not abort the exchange.
-func (m *recorder) modErr() error {
+func (m *zzrecorder) modErr() error {
 	if m.errKind == 0 {
 		m.errKind = 1 + vf.Choice("modifier-error-kind", 4)
 	}
@@ -77,30 +77,30 @@ func (m *recorder) modErr() error {
 	case 3:
 		return io.ErrClosedPipe
 	case 4:
-		return timeoutErr{}
+		return zztimeoutErr{}
 	}
-	return errMod
+	return zzerrMod
 }
 
-func (m *recorder) rec(req *http.Request) *exchangeRec {
+func (m *zzrecorder) rec(req *http.Request) *zzexchangeRec {
 	for _, r := range m.recs {
 		if r.req == req {
 			return r
 		}
 	}
-	r := &exchangeRec{req: req}
+	r := &zzexchangeRec{req: req}
 	m.recs = append(m.recs, r)
 	return r
 }
 
-func (m *recorder) activity() int {
+func (m *zzrecorder) activity() int {
 	if m.conn == nil {
 		return 0
 	}
 	return m.conn.reads + m.conn.writes + m.conn.deadline
 }
 
-func (m *recorder) ModifyRequest(req *http.Request) error {
+func (m *zzrecorder) ModifyRequest(req *http.Request) error {
 	r := m.rec(req)
 	r.reqCalls++
 	r.reqCtx = NewContext(req)
@@ -112,27 +112,27 @@ func (m *recorder) ModifyRequest(req *http.Request) error {
 	if m.dials != nil {
 		r.originAtReq += *m.dials
 	}
-	b := bPass
+	b := zzbPass
 	if k := len(m.recs) - 1; k < len(m.behave) {
 		b = m.behave[k]
 	}
 	switch b {
-	case bError:
+	case zzbError:
 		return m.modErr()
-	case bSkip:
+	case zzbSkip:
 		r.reqCtx.SkipRoundTrip()
-	case bHijackReq, bHijackReqErr:
+	case zzbHijackReq, zzbHijackReqErr:
 		c, _, err := r.reqCtx.Session().Hijack()
 		vf.Assert(err == nil && c != nil, "hijack-succeeds")
 		m.hijackedAt = m.activity()
-		if b == bHijackReqErr {
+		if b == zzbHijackReqErr {
 			return m.modErr()
 		}
 	}
 	return nil
 }
 
-func (m *recorder) ModifyResponse(res *http.Response) error {
+func (m *zzrecorder) ModifyResponse(res *http.Response) error {
 	r := m.rec(res.Request)
 	r.resCalls++
 	r.resCtx = NewContext(res.Request)
@@ -150,25 +150,25 @@ func (m *recorder) ModifyResponse(res *http.Response) error {
 			k = i
 		}
 	}
-	b := bPass
+	b := zzbPass
 	if k >= 0 && k < len(m.behave) {
 		b = m.behave[k]
 	}
 	switch b {
-	case bError:
+	case zzbError:
 		return m.modErr()
-	case bHijackRes, bHijackResErr:
+	case zzbHijackRes, zzbHijackResErr:
 		c, _, err := r.resCtx.Session().Hijack()
 		vf.Assert(err == nil && c != nil, "hijack-succeeds")
 		m.hijackedAt = m.activity()
-		if b == bHijackResErr {
+		if b == zzbHijackResErr {
 			return m.modErr()
 		}
 	}
 	return nil
 }
 
-func liveContexts() int {
+func zzliveContexts() int {
 	ctxmu.RLock()
 	defer ctxmu.RUnlock()
 	return len(ctxs)
@@ -183,35 +183,35 @@ func VerifC02Plain() {
 	behave := make([]int, n)
 	for i := 0; i < n; i++ {
 		behave[i] = vf.Choice("behaviour", 7)
-		wire = append(wire, reqSpec{method: "GET", path: "/r" + string(rune('0'+i)), hval: "v"}.wire())
+		wire = append(wire, zzreqSpec{method: "GET", path: "/r" + string(rune('0'+i)), hval: "v"}.wire())
 		ms = append(ms, "GET")
 	}
-	conn := newClientConn("client", true, wire...)
-	o := &origin{}
+	conn := zznewClientConn("client", true, wire...)
+	o := &zzorigin{}
 	o.answer = func(i int, req *http.Request) (*http.Response, error) {
-		return rawResponse(resSpec{status: 201, hval: "o", body: []byte("ok")}.wire(), req)
+		return zzrawResponse(zzresSpec{status: 201, hval: "o", body: []byte("ok")}.wire(), req)
 	}
 	o.wraps = vf.Choice("round-tripper-works-on-a-copy-of-the-request", 2) == 1
-	m := &recorder{behave: behave, o: o, conn: conn, hijackedAt: -1}
+	m := &zzrecorder{behave: behave, o: o, conn: conn, hijackedAt: -1}
 	p := NewProxy()
 	p.SetRoundTripper(o)
 	p.SetRequestModifier(m)
 	p.SetResponseModifier(m)
-	serveConn(p, conn)
-	checkExchanges(m, conn, o, ms, behave, n)
+	zzserveConn(p, conn)
+	zzcheckExchanges(m, conn, o, ms, behave, n)
 	vf.Reach("done")
 }
 
-func checkExchanges(m *recorder, conn *clientConn, o *origin, ms []string, behave []int, n int) {
+func zzcheckExchanges(m *zzrecorder, conn *zzclientConn, o *zzorigin, ms []string, behave []int, n int) {
 	// exchanges up to and including the first hijack
 	behave = append([]int(nil), behave...)
 	for i := range behave {
-		behave[i] = norm(behave[i])
+		behave[i] = zznorm(behave[i])
 	}
 	served := n
 	hijack := -1
 	for i, b := range behave {
-		if b == bHijackReq || b == bHijackRes {
+		if b == zzbHijackReq || b == zzbHijackRes {
 			served, hijack = i+1, i
 			break
 		}
@@ -225,10 +225,10 @@ func checkExchanges(m *recorder, conn *clientConn, o *origin, ms []string, behav
 		vf.Assert(r.reqCtx != nil, "context-available-to-request-modifier")
 		vf.Assert(r.originAtReq == origins, "request-modifier-before-any-upstream-contact")
 		b := behave[i]
-		if b != bSkip && b != bHijackReq {
+		if b != zzbSkip && b != zzbHijackReq {
 			origins++
 		}
-		if b == bHijackReq {
+		if b == zzbHijackReq {
 			vf.Assert(r.resCalls == 0, "no-response-modifier-after-request-hijack")
 		} else {
 			vf.Assert(r.resCalls == 1, "response-modifier-exactly-once")
@@ -247,9 +247,9 @@ func checkExchanges(m *recorder, conn *clientConn, o *origin, ms []string, behav
 		}
 	}
 	vf.Assert(len(o.seen) == origins, "upstream-contact-only-when-expected")
-	vf.Assert(liveContexts() == 0, "no-context-retrievable-after-the-exchange")
+	vf.Assert(zzliveContexts() == 0, "no-context-retrievable-after-the-exchange")
 	// what the client got
-	got := clientView(conn.out.Bytes(), ms)
+	got := zzclientView(conn.out.Bytes(), ms)
 	want := served
 	if hijack >= 0 {
 		want = hijack // the hijacked exchange gets no proxy-written response
@@ -257,9 +257,9 @@ func checkExchanges(m *recorder, conn *clientConn, o *origin, ms []string, behav
 	vf.Assert(len(got) == want, "one-response-per-non-hijacked-exchange")
 	for i := 0; i < want && i < len(got); i++ {
 		switch behave[i] {
-		case bSkip:
+		case zzbSkip:
 			vf.Assert(got[i].status == 200, "skipped-round-trip-answers-200")
-		case bError:
+		case zzbError:
 			vf.Assert(got[i].status == 201, "modifier-error-does-not-abort-the-exchange")
 			vf.Assert(len(got[i].header["Warning"]) >= 1, "modifier-error-surfaces-as-warning")
 		default:
@@ -273,8 +273,8 @@ func checkExchanges(m *recorder, conn *clientConn, o *origin, ms []string, behav
 	}
 }
 
-type tunnelTarget struct {
-	*clientConn
+type zztunnelTarget struct {
+	*zzclientConn
 }
 
 // VerifC02Connect: a CONNECT request without MITM (dial succeeds or fails).
@@ -282,11 +282,11 @@ func VerifC02Connect() {
 	behave := []int{vf.Choice("behaviour", 7)}
 	dialOK := vf.Choice("dial-ok", 2) == 1
 	wire := []byte("CONNECT example.com:443 HTTP/1.1\r\nHost: example.com:443\r\n\r\n")
-	conn := newClientConn("client", true, wire)
-	target := newClientConn("target", true)
+	conn := zznewClientConn("client", true, wire)
+	target := zznewClientConn("target", true)
 	dials := 0
-	o := &origin{}
-	m := &recorder{behave: behave, o: o, conn: conn, hijackedAt: -1, dials: &dials}
+	o := &zzorigin{}
+	m := &zzrecorder{behave: behave, o: o, conn: conn, hijackedAt: -1, dials: &dials}
 	p := NewProxy()
 	p.SetRoundTripper(o)
 	p.SetDial(func(network, addr string) (net.Conn, error) {
@@ -298,19 +298,19 @@ func VerifC02Connect() {
 	})
 	p.SetRequestModifier(m)
 	p.SetResponseModifier(m)
-	serveConn(p, conn)
+	zzserveConn(p, conn)
 	vf.Assert(len(m.recs) == 1, "request-modifier-runs-for-the-connect-request")
 	r := m.recs[0]
 	vf.Assert(r.reqCalls == 1 && r.originAtReq == 0, "request-modifier-once-before-dialling")
-	behave[0] = norm(behave[0])
-	if behave[0] == bHijackReq {
+	behave[0] = zznorm(behave[0])
+	if behave[0] == zzbHijackReq {
 		vf.Assert(dials == 0 && r.resCalls == 0, "hijacked-connect-is-not-dialled")
 		vf.Assert(m.activity() == m.hijackedAt, "no-proxy-io-on-a-hijacked-connection")
 	} else {
 		vf.Assert(dials == 1, "connect-dials-once")
 		vf.Assert(r.resCalls == 1 && r.resRequest == r.req && r.resCtx == r.reqCtx, "response-modifier-once-with-same-request-and-context")
-		got := clientView(conn.out.Bytes(), []string{"CONNECT"})
-		if behave[0] == bHijackRes {
+		got := zzclientView(conn.out.Bytes(), []string{"CONNECT"})
+		if behave[0] == zzbHijackRes {
 			vf.Assert(len(got) == 0, "no-response-written-after-response-hijack")
 			vf.Assert(m.activity() == m.hijackedAt, "no-proxy-io-on-a-hijacked-connection")
 		} else {
@@ -324,7 +324,7 @@ func VerifC02Connect() {
 			}
 		}
 	}
-	vf.Assert(liveContexts() == 0, "no-context-retrievable-after-the-exchange")
+	vf.Assert(zzliveContexts() == 0, "no-context-retrievable-after-the-exchange")
 	vf.Assert(conn.closed >= 1, "connection-closed-at-the-end")
 	vf.Reach("done")
 }
